@@ -15,6 +15,7 @@ are fewer), ref -1 = a never-issued id, a STRING ref = that literal string as se
 issued: "", "%s", …).  ["X", None] calls cleanup_expired() with its default max_age (read from
 the signature).  ["C", client, version, metadata] passes the optional metadata argument.
 ["R", ref, None, id] dispatches a message WITHOUT a method (a response-shaped message).
+["B", n, client, version] is n consecutive create_session(client, version) calls reported as ONE step (large stores).
 ["I", ref, spec, None] is an initialize WITHOUT id (the session it leaves behind is found by comparing
 list_sessions() before and after).  case["supply"] = [k, …] replaces the id supply: the session manager
 becomes a subclass of the real one whose generate_session_id() hands out "scripted-k" in that order
@@ -232,10 +233,20 @@ def _run_case(case):
     steps = []
     obs = {"steps": steps, "harness_error": None}
 
+    index_of: dict = {}
+
     def number(sid):
-        if sid in ids:
-            return ids.index(sid), False
+        try:
+            k = index_of.get(sid)
+        except TypeError:  # an unhashable id: fall back to the list
+            k = ids.index(sid) if sid in ids else None
+        if k is not None:
+            return k, False
         ids.append(sid)
+        try:
+            index_of[sid] = len(ids) - 1
+        except TypeError:
+            pass
         return len(ids) - 1, True
 
     def resolve(ref):
@@ -291,6 +302,14 @@ def _run_case(case):
                     st["out"] = ["sid", k]
                     st["fresh"] = fresh
                     st["idtype"] = type(sid).__name__
+                elif code == "B":
+                    first, all_fresh = len(ids), True
+                    for _ in range(op[1]):
+                        k, fresh = number(mgr.create_session(copy.deepcopy(op[2]), op[3]))
+                        all_fresh = all_fresh and fresh and k == len(ids) - 1
+                    st["out"] = ["bulk", op[1]]
+                    st["first"] = first
+                    st["fresh"] = all_fresh
                 elif code == "G":
                     st["out"] = ["rec", _rec(mgr.get_session(resolve(op[1])))]
                 elif code == "U":
@@ -437,6 +456,11 @@ def model_line(case, obs):
         if code == "C":
             ops.append([now, "C", st["out"][1], op[1], op[2]])
             issued = max(issued, st["out"][1] + 1)
+        elif code == "B":
+            if not st.get("fresh"):
+                return None  # a repeated id inside a bulk step: the oracle reports it
+            ops.append([now, "B", st["first"], op[1], op[2], op[3]])
+            issued = max(issued, st["first"] + op[1])
         elif code in ("G", "U", "D"):
             ops.append([now, code, _ref_num(op[1], issued)])
         elif code == "X":
